@@ -52,4 +52,14 @@ theorem linkOK_copyLp : ∀ (ks : List PT) (n : Nat) (p : Nat),
     · exact linkOK_copyLp ks (n + k.size) p x hx
 end
 
+/-- the raw list copy (`child_list result(_children)`), whatever the elements' `parent_` is set to afterwards -/
+theorem linkOK_copyLp_any : ∀ (ks : List PT) (n : Nat) (p : Option Nat), ∀ k ∈ copyLp n p ks, LinkOK k
+  | [], n, p => by simp [copyLp]
+  | k :: ks, n, p => by
+    intro x hx
+    simp only [copyLp, List.mem_cons] at hx
+    rcases hx with rfl | hx
+    · exact linkOK_setParent.2 (linkOK_copyT k n)
+    · exact linkOK_copyLp_any ks (n + k.size) p x hx
+
 end Fcppt.C09
